@@ -274,7 +274,7 @@ class XzBlock:
         self.nfilters = nfilters
 
 
-def build_xz(check_id, blocks, rec=None):
+def build_xz(check_id, blocks, rec=None, index_records=None):
     """Build a single-stream .xz file.  `rec`, if a dict, receives field offsets
     (for targeted mutations): each entry name -> (offset, length)."""
     f = bytearray()
@@ -339,6 +339,8 @@ def build_xz(check_id, blocks, rec=None):
     idx = bytearray(b"\x00")
     off["idx_count"] = (istart + len(idx), 1)
     idx += mb(len(records))
+    if index_records is not None:
+        records = [(u2, n2, b) for (u2, n2), (_, _, b) in zip(index_records, records)]
     for bi, (u, n, b) in enumerate(records):
         off["idx%d_unpadded" % bi] = (istart + len(idx), 1)
         idx += mb(u, b.widths.get("idx_unpadded"))
@@ -363,6 +365,7 @@ def build_xz(check_id, blocks, rec=None):
         rec.update(off)
         rec["_index_start"] = istart
         rec["_index_size"] = index_size
+        rec["_records"] = [(u, n) for (u, n, _) in records]
     return bytes(f)
 
 
